@@ -189,6 +189,12 @@ pub fn sample_run(run: &RunSpec) -> Value {
         };
         files.insert(d.name.clone(), Value::String(text));
     }
+    let links: Vec<String> = run.docs.iter().chain(run.aux.iter()).filter_map(|d| d.link.as_ref()).map(|(l, t)| format!("{l} -> {t}")).collect();
+    if !links.is_empty() {
+        let mut v = json!({"argv": argv(run).join(" "), "files": files, "symbolic_links": links});
+        v["stored_at"] = json!(run.docs.iter().filter_map(|d| d.stored_at.as_ref().map(|s| format!("{} is the file {s}", d.name))).collect::<Vec<_>>());
+        return v;
+    }
     json!({"argv": argv(run).join(" "), "files": files})
 }
 
@@ -232,7 +238,19 @@ pub fn write_docs(sb: &Sandbox, run: &RunSpec) {
         if d.defect == Defect::Missing {
             continue;
         }
-        sb.write_doc(&d.name, &render(d, &log));
+        sb.write_doc(d.stored_at.as_deref().unwrap_or(&d.name), &render(d, &log));
+    }
+    // symbolic links (to a document or to a directory of documents)
+    for d in run.docs.iter().chain(run.aux.iter()) {
+        if let Some((link, target)) = &d.link {
+            let lp = sb.docs.join(link);
+            if std::fs::symlink_metadata(&lp).is_err() {
+                if let Some(parent) = lp.parent() {
+                    let _ = std::fs::create_dir_all(parent);
+                }
+                let _ = std::os::unix::fs::symlink(sb.docs.join(target), &lp);
+            }
+        }
     }
 }
 
